@@ -321,7 +321,10 @@ func (t *stdioClientTransport) readLoop() {
 				break
 			}
 			t.logger.Errorf("Error reading message: %v", err)
-			continue
+			// A json.Decoder error is sticky: every later Decode returns the same error, so the
+			// stream cannot be resynchronised. Stop reading and release the pending calls.
+			t.cancel()
+			break
 		}
 
 		// Parse message type.
